@@ -64,6 +64,11 @@ T6raw == << "type", "U", "=", "<T", "\"a\"", "|", "\"b\"", "|", "nil", "T>",
             "type", "P", "<", "R", "...", ">", "=", "<T", "(", "R", "...", ")", "->", "(", "...", "any", ")", "T>",
             "local", "q", "=", "z", "::", "<T", "any", "T>", "(", "g", ")", "(", "q", ")",     \* a cast ends its statement: `(g)(q)` is the next one
             "q", "=", "q", "::", "<T", "{", "}", "T>", "(", "g", "::", "<T", "any", "T>", ")", "(", ")",
+            \* a cast as the LEFT operand of binary operators (only `<` would need parentheses: `T <` opens type parameters) and
+            \* under unary operators
+            "q", "=", "q", "::", "<T", "number", "T>", "<=", "1", "==", "g", "::", "<T", "any", "T>", "and", "-", "q", "::", "<T", "number", "T>", "+", "1", ">=", "2",
+              "or", "g", "::", "<T", "M", ".", "B", "T>", "~=", "nil",
+            "q", "=", "not", "q", "::", "<T", "any", "T>", "..", "\"s\"", ">", "\"a\"",
             "return", "v", ",", "w" >>
 RECURSIVE Unmark(_, _, _, _, _)
 Unmark(raw, k, toks, open, spans) ==
